@@ -407,6 +407,24 @@ def histories(ctx):
     return hs
 
 
+def close_counts(ctx):
+    """Count the close() calls the library makes on a handed-over descriptor (the probe binary interposes
+    `close`): exactly one once the action is removed or the registration is refused, none while registered."""
+    rc, out, _ = common.sh([common.bin_path('p_closecount')], timeout=120)
+    rows = [l.split() for l in out.split('\n') if len(l.split()) == 4]
+    ctx.correspondence('close-count probe ran (p_closecount)', rc == 0 and len(rows) >= 8, out[-400:] if rc else None)
+    for name, got, want, shape in rows:
+        ctx.evaluations += 1
+        ctx.distinct.add(('close-count', name))
+        if got != want:
+            ctx.violation({'close_count': name}, 'descriptor handed over in case %s was closed %s time(s) by the library, expected %s '
+                          '(closed exactly once - when the action is removed or the registration is rejected)' % (name, got, want),
+                          {'case': name, 'probe_output': out, 'replay': 'harness/target/debug/p_closecount'})
+        if shape != '1':
+            ctx.violation({'close_count_shape': name}, 'case %s did not take the expected accept/refuse path' % name, {'probe_output': out})
+    ctx.coverage['close_count_cases'] = len(rows)
+
+
 def run(ctx, only=None):
     ctx.trusted_base = TB
     ctx.assumptions = ['an empty pipe / socket accepts one unit (capacity >= 1): hypothesis accept_empty of the theorems',
@@ -416,7 +434,7 @@ def run(ctx, only=None):
                        'each registration is handed a descriptor of its own (dup/try_clone for several signals), as the API documents',
                        'panic = unwind (a forbidden signal drops the closure during unwinding)']
     ctx.level = 'proof'
-    if not ctx.harness(['p_c13']):
+    if not ctx.harness(['p_c13', 'p_closecount']):
         return
     ctx.translate(COMPONENTS)
     ctx.prove('props/C13.v')
@@ -425,6 +443,8 @@ def run(ctx, only=None):
         oracle_correspondence(ctx)
     hs = only or histories(ctx)
     run_histories(ctx, hs, have_model)
+    if only is None:
+        close_counts(ctx)
     ctx.coverage['rule'] = ('histories = 5 fixed corner histories + 1 history with 291 registrations on one datagram socket + every queue kind x {empty, full[, full of empty datagrams]} x {blocking, O_NONBLOCK} with a burst '
                             'longer than the capacity + %d random histories from VERIF_SEED (1-3 channels of 7 descriptor kinds, register/register_raw incl. forbidden, invalid '
                             'signals and invalid descriptors, bursts up to %d deliveries, partial and complete drains, stale unregisters, descriptor-number reuse probe); '
